@@ -163,7 +163,10 @@ def encode_track(enc, cyl, head, sectors, params=None, size_code=1):
     defaults to 0xFB (0xF8 = deleted data; 0xF9/0xFA are the other marks a WD177x can write).
     Returns (cells, regions)."""
     p = params or default_params(enc)
-    sectors = [(t[0], t[1], t[2] if len(t) > 2 else 0xFB) for t in sectors]
+    # a fourth element overrides the ID field (c, h, r, n) recorded for the sector - with a valid ID CRC -
+    # while the region map keeps naming the sector by t[0]
+    idov = {t[0]: t[3] for t in sectors if len(t) > 3 and t[3]}
+    sectors = [(t[0], t[1], t[2] if len(t) > 2 and t[2] is not None else 0xFB) for t in sectors]
     if enc == 'fm':
         w = FmWriter()
         s = len(w.cells)
@@ -181,7 +184,7 @@ def encode_track(enc, cyl, head, sectors, params=None, size_code=1):
             w.byte(0xFE, 0xC7)
             w.mark('idmark', rec, s)
             s = len(w.cells)
-            idf = bytes([cyl, head, rec, size_code])
+            idf = bytes(idov.get(rec, (cyl, head, rec, size_code)))
             for b in idf:
                 w.byte(b)
             w.mark('id', rec, s)
@@ -234,7 +237,7 @@ def encode_track(enc, cyl, head, sectors, params=None, size_code=1):
         w.byte(0xFE)
         w.mark('idmark', rec, s)
         s = len(w.cells)
-        idf = bytes([cyl, head, rec, size_code])
+        idf = bytes(idov.get(rec, (cyl, head, rec, size_code)))
         for b in idf:
             w.byte(b)
         w.mark('id', rec, s)
